@@ -14,7 +14,7 @@ pub fn generate(suite: &str, rng: &mut Rng, thorough: bool) -> (&'static str, Ve
         "control" => ("E2C", control::generate(rng, thorough, false)),
         "control_cut" => ("E2C", control::generate(rng, thorough, true)),
         "pair" => ("E2C", pair::generate(rng, thorough)),
-        "emit" | "signals" | "wdgram" | "client" => ("E2C", misc::generate(rng, thorough, suite)),
+        "emit" | "signals" | "wdgram" | "client" | "credit" => ("E2C", misc::generate(rng, thorough, suite)),
         "streams" | "foreign" | "unknown_uni" | "stall" | "pace" | "requests" => ("E2C", streams::generate(rng, thorough, suite)),
         _ => panic!("unknown suite {}", suite),
     }
@@ -26,6 +26,7 @@ pub async fn exec(f: u32, args: &Args) -> Args {
         611 => control::exec(args).await,
         621 => streams::exec(args).await,
         631 => misc::exec_emit(args).await,
+        632 => misc::exec_open_credit(args).await,
         641 => misc::exec_signals(args).await,
         651 => misc::exec_dgram(args).await,
         661 => misc::exec_client(args).await,
@@ -42,7 +43,7 @@ pub fn oracle(f: u32, args: &Args, out: &Args) -> Option<(&'static str, String)>
         601 => session::oracle(args, out),
         611 => control::oracle(args, out),
         621 => streams::oracle(args, out),
-        631 | 641 | 651 | 661 => misc::oracle(f, args, out),
+        631 | 632 | 641 | 651 | 661 => misc::oracle(f, args, out),
         671 => pair::oracle(args, out),
         _ => None,
     }
